@@ -397,7 +397,62 @@ func GenGraph(t *rapid.T, s *hx.Schema, p Profile, leaf LeafFn) *hx.Graph {
 			n.F[f.Name] = genVal(f.Type, fmt.Sprintf("n%d%s", n.ID, f.Name), -1)
 		}
 	}
+	GenHidden(t, s, g)
 	return g
+}
+
+// GenHidden gives some of the empty lists of the graph hidden members (see hx.Node.Hidden).
+func GenHidden(t *rapid.T, s *hx.Schema, g *hx.Graph) {
+	byType := map[string][]int{}
+	for _, n := range g.Nodes {
+		if n.Type != "" {
+			byType[n.Type] = append(byType[n.Type], n.ID)
+		}
+	}
+	for _, n := range g.Nodes {
+		if n.Type == "" || s.Type(n.Type) == nil {
+			continue
+		}
+		for _, f := range s.Type(n.Type).Fields {
+			v, ok := n.F[f.Name]
+			if !ok || v.K != "list" || len(v.L) != 0 || f.Type.List == nil || f.Type.List.List != nil {
+				continue
+			}
+			lab := fmt.Sprintf("hidden%d%s", n.ID, f.Name)
+			if rapid.IntRange(0, 2).Draw(t, lab) != 0 {
+				continue
+			}
+			var members []hx.Val
+			base := f.Type.BaseName()
+			switch {
+			case s.IsComposite(base):
+				var cands []int
+				for _, pt := range s.PossibleTypes(base) {
+					cands = append(cands, byType[pt]...)
+				}
+				if len(cands) == 0 {
+					continue
+				}
+				for i := 0; i < rapid.IntRange(1, 2).Draw(t, lab+"n"); i++ {
+					members = append(members, hx.Ref(rapid.SampledFrom(cands).Draw(t, fmt.Sprintf("%s_%d", lab, i))))
+				}
+			case base == "String":
+				members = []hx.Val{hx.Str("hidden")}
+			case base == "Int":
+				members = []hx.Val{hx.I32(7), hx.I32(8)}
+			case base == "Boolean":
+				members = []hx.Val{hx.Bool(true)}
+			case base == "Float":
+				members = []hx.Val{hx.F64(1.5)}
+			default:
+				continue
+			}
+			if n.Hidden == nil {
+				n.Hidden = map[string]hx.Val{}
+			}
+			n.Hidden[f.Name] = hx.List(members...)
+		}
+	}
 }
 
 // docGen carries the state of document generation.
